@@ -54,6 +54,11 @@ PostAtoms == { Cmp("eq", Id0("n"), IntL(1)), Cmp("eq", Id0("title"), SL("a")), C
                Coll(Id0("comments"), "any", None), Coll(Id0("authors"), "any", None), Coll(P("author", <<"posts">>), "any", None),
                Coll(P("author", <<"org", "authors">>), "any", Lam(eV, Cmp("gt", P("e", <<"rank">>), IntL(2)))) }
 \* simple lambdas as atoms, so that sibling lambdas over the same collection meet at the smallest bound
+\* nested lambdas that bind the same variable name twice
+SameNameAtomsPost == { Coll(Id0("authors"), "any", Lam(eV, Coll(P("e", <<"posts">>), "any", Lam(eV, Cmp("gt", P("e", <<"id">>), IntL(10)))))),
+                       Coll(P("author", <<"posts">>), "all", Lam(pV, Coll(P("p", <<"comments">>), "any", Lam(pV, Cmp("ge", P("p", <<"k">>), IntL(2)))))) }
+SameNameAtomsAuthor == { Coll(Id0("posts"), "any", Lam(pV, Coll(P("p", <<"comments">>), "any", Lam(pV, Cmp("gt", P("p", <<"k">>), IntL(1)))))),
+                         Coll(Id0("edited"), "all", Lam(pV, Coll(P("p", <<"authors">>), "any", Lam(pV, Cmp("gt", P("p", <<"rank">>), IntL(1)))))) }
 PostLambdaAtoms == { Coll(Id0("comments"), q, Lam(cV, Cmp(o, P("c", <<"k">>), IntL(k)))) : q \in {"any", "all"},
                                                  <<o, k>> \in {<<"gt", 1>>, <<"lt", 3>>, <<"ge", 2>>, <<"le", 2>>, <<"ne", 2>>} }
               \cup { Coll(Id0("authors"), q, Lam(eV, Cmp(o, P("e", <<"rank">>), IntL(k)))) : q \in {"any", "all"}, <<o, k>> \in {<<"gt", 1>>, <<"lt", 3>>} }
@@ -73,9 +78,9 @@ AuthorBrackets == { Coll(Id0("posts"), q, Lam(pV, HP)) : q \in {"any", "all"} }
              \cup { Coll(Id0("edited"), q, Lam(pV, HP)) : q \in {"any", "all"} }
 Connectives(h) == { <<1, Bool("and", h, h)>>, <<1, Bool("or", h, h)>>, <<1, Un("not", h)>> }
 Expand(h) ==
-  CASE h = "B" -> (IF Root = "Post" THEN { <<0, x>> : x \in PostAtoms \cup PostLambdaAtoms } \cup { <<1, x>> : x \in PostBrackets }
+  CASE h = "B" -> (IF Root = "Post" THEN { <<0, x>> : x \in PostAtoms \cup PostLambdaAtoms \cup SameNameAtomsPost } \cup { <<1, x>> : x \in PostBrackets }
                    ELSE IF Root = "Org" THEN { <<0, x>> : x \in OrgAtoms } \cup { <<1, x>> : x \in OrgBrackets }
-                   ELSE { <<0, x>> : x \in AuthorAtoms } \cup { <<1, x>> : x \in AuthorBrackets }) \cup Connectives(HB)
+                   ELSE { <<0, x>> : x \in AuthorAtoms \cup SameNameAtomsAuthor } \cup { <<1, x>> : x \in AuthorBrackets }) \cup Connectives(HB)
     [] h = "C" -> { <<0, Cmp("gt", P("c", <<"k">>), IntL(1))>>, <<0, Cmp("eq", P("c", <<"k">>), IntL(2))>>, <<0, Cmp("ge", P("c", <<"k">>), IntL(2))>>,
                     <<0, Cmp("le", IntL(2), P("c", <<"k">>))>>,
                     <<0, Cmp("lt", P("c", <<"k">>), IntL(3))>>, <<0, Cmp("eq", P("c", <<"post", "id">>), IntL(6))>> }
